@@ -10,7 +10,7 @@
    Part 3  MLL file table, src/cgnslib.c: cg_open (494-665), cg_close (810-860), cgi_get_file (cgns_internals.c 11098).
 
    What is modelled: reference counts (in_use), link lists (links[] / nlinks), slot allocation and reuse, table growth and
-   release, file names (as numbers), and a LEDGER = the multiset of descriptors the ADF layer holds open (one entry, the
+   release, file names (as numbers), the one-entry link cache of ADFI_chase_link, and a LEDGER = the multiset of descriptors the ADF layer holds open (one entry, the
    file's name, per successful open(); removed by the close() of that slot).  What is not: file contents (the world says
    which names exist, of which kind, and which link nodes each file contains), I/O failures, malloc failures, HDF5.
 
@@ -42,10 +42,13 @@ Definition has_link (w : world) (a b : nat) : bool :=
 (* ------------------------------------------------------------------------------------------------ ADF_file[] *)
 Record slot := mkslot { in_use : nat; fd_open : bool; fname : option nat; links : list nat }.
 Definition free_slot : slot := mkslot 0 false None [].
-(* tab = ADF_file[0 .. maximum_files) ; ledger = names of the descriptors currently open *)
-Record adf := mkadf { tab : list slot; ledger : list nat }.
+(* tab = ADF_file[0 .. maximum_files) ; ledger = names of the descriptors currently open ;
+   lcache = the one-entry cache of ADFI_chase_link (last_link_ID, last_link_LID): Some (c, n, li) = "the link node L<n> of
+   the file in slot c resolves into the file in slot li" *)
+Record adf := mkadf { tab : list slot; ledger : list nat; lcache : option (nat * nat * nat) }.
 Definition slot_at (a : adf) (i : nat) : slot := nth i (tab a) free_slot.
-Definition set_slot (a : adf) (i : nat) (s : slot) : adf := mkadf (upd (tab a) i s) (ledger a).
+Definition set_slot (a : adf) (i : nat) (s : slot) : adf := mkadf (upd (tab a) i s) (ledger a) (lcache a).
+Definition set_cache (a : adf) (c : option (nat * nat * nat)) : adf := mkadf (tab a) (ledger a) c.
 Definition set_in_use (a : adf) (i n : nat) : adf :=
   let s := slot_at a i in set_slot a i (mkslot n (fd_open s) (fname s) (links s)).
 
@@ -65,24 +68,28 @@ Fixpoint find_free (t : list slot) : nat :=
 Definition adfi_open_file (a : adf) (n : nat) (os_ok : bool) : adf * option nat :=
   let i := find_free (tab a) in
   let t1 := if i <? length (tab a) then tab a else tab a ++ repeat free_slot ADF_FILE_INC in
-  if MAXIMUM_FILES <? i then (mkadf t1 (ledger a), None)                          (* TOO_MANY_ADF_FILES_OPENED *)
-  else if os_ok then (mkadf (upd t1 i (mkslot 1 true (Some n) [])) (n :: ledger a), Some i)
-  else (mkadf (upd t1 i free_slot) (ledger a), None).                             (* Error_Exit *)
+  (* the first table is being allocated: ADFI_stack_control(INIT_STK) also forgets the link cache *)
+  let c1 := match tab a with [] => None | _ => lcache a end in
+  if MAXIMUM_FILES <? i then (mkadf t1 (ledger a) c1, None)                       (* TOO_MANY_ADF_FILES_OPENED *)
+  else if os_ok then (mkadf (upd t1 i (mkslot 1 true (Some n) [])) (n :: ledger a) c1, Some i)
+  else (mkadf (upd t1 i free_slot) (ledger a) c1, None).                          (* Error_Exit *)
 
 (* ---- ADFI_close_file as a stack machine ---------------------------------------------------------------- *)
 Inductive variant := Faithful | FixA.
 Inductive frame := FEnter (i : nat) | FLoop (i k : nat).
 Record cm := mkcm { cm_a : adf; cm_stk : list frame; cm_err : nat }.
 
-(* the block under "if ( index == 0)": CLOSE the descriptor, free links[] and file_name *)
+(* the block under "if ( index == 0)": CLOSE the descriptor, ADFI_stack_control(CLEAR_STK) (which also forgets the link
+   cache), free links[] and file_name *)
 Definition really_close (a : adf) (i : nat) : adf :=
   let s := slot_at a i in
   mkadf (upd (tab a) i free_slot)
-        (if fd_open s then match fname s with Some n => rem1 n (ledger a) | None => ledger a end else ledger a).
+        (if fd_open s then match fname s with Some n => rem1 n (ledger a) | None => ledger a end else ledger a)
+        None.
 
 (* "if no more files open, free data structure": free (ADF_file); maximum_files = 0; *)
 Definition free_if_idle (a : adf) : adf :=
-  if forallb (fun s => Nat.eqb (in_use s) 0) (tab a) then mkadf [] (ledger a) else a.
+  if forallb (fun s => Nat.eqb (in_use s) 0) (tab a) then mkadf [] (ledger a) (lcache a) else a.
 
 Definition cm_step (v : variant) (m : cm) : cm + (adf * nat) :=
   let a := cm_a m in
@@ -162,17 +169,26 @@ Definition chase (v : variant) (fuel : nat) (w : world) (a : adf) (cur n : nat) 
   | None => Some (a, None)
   | Some nm =>
     if negb (has_link w nm n) then Some (a, None) else                              (* CHILD_NOT_OF_GIVEN_PARENT *)
+    let hit := match lcache a with
+               | Some (c, m, li) => if Nat.eqb c cur && Nat.eqb m n then Some li else None
+               | None => None
+               end in
+    match hit with
+    | Some li =>                                         (* if (ID == last_link_ID): no search, no open, no link_add *)
+        if (length (tab a) <=? li) || Nat.eqb (in_use (slot_at a li)) 0 then Some (a, None) else Some (a, Some li)
+    | None =>
     match kind_of w n with
     | KOk | KBadHdr =>                                              (* ADFI_find_file: cgio_check_file says ADF *)
         match find_name (tab a) n with
-        | Some li => Some (link_add a cur li true, Some li)
+        | Some li => Some (set_cache (link_add a cur li true) (Some (cur, n, li)), Some li)
         | None => match adf_database_open v fuel w a n true with                    (* ADFI_link_open *)
                   | None => None
                   | Some (a1, None) => Some (a1, None)
-                  | Some (a1, Some li) => Some (link_add a1 cur li false, Some li)
+                  | Some (a1, Some li) => Some (set_cache (link_add a1 cur li false) (Some (cur, n, li)), Some li)
                   end
         end
     | _ => Some (a, None)                                                           (* LINKED_TO_FILE_NOT_THERE *)
+    end
     end
   end.
 
@@ -189,7 +205,7 @@ Fixpoint walk (v : variant) (fuel : nat) (w : world) (a : adf) (cur : nat) (chai
 
 (* ------------------------------------------------------------------------------------------------ cgio iolist *)
 Record io := mkio { io_adf : adf; iol : list (option nat); nopen : nat }.
-Definition io_init : io := mkio (mkadf [] []) [] 0.
+Definition io_init : io := mkio (mkadf [] [] None) [] 0.
 
 Inductive cres := ROk | RBadCgio | RFileType | RAdf (e : nat).
 
